@@ -567,6 +567,18 @@ impl Core {
         // Apply connection filtering rules
         let client_ip = socket.peer_addr().ok().map(|addr| addr.ip());
         let client_random = Some(socket.client_random());
+        #[cfg(trusttunnel_verif)]
+        crate::verif_emit!(
+            "QuicEstablished",
+            "\"id\":\"{}\",\"peer\":\"{}\",\"random\":{},\"r0\":{}",
+            client_id,
+            client_ip.map(|x| x.to_string()).unwrap_or_default(),
+            crate::verif::rules::json_random(client_random.as_deref()),
+            client_random
+                .as_ref()
+                .and_then(|x| x.first().copied())
+                .unwrap_or(0)
+        );
 
         if let Err(deny_reason) = Self::evaluate_connection_rules(
             &context,
